@@ -79,6 +79,42 @@ def run(tier, seed):
     hs = common.build_harness()
     crc = common.run_tlc("MC_Crc", "MC_Crc.cfg", workers=1, timeout=300)
     common.require_tlc_ok(crc, "Crc sanity theorems")
+    # ---- the call-level model of the writer and of the reader's header (SingleObject.tla): all sink / source schedules, three mutants
+    so_cfgs = ["MC_SingleObject.cfg" if tier == "quick" else "MC_SingleObject_thorough.cfg", "MC_SingleObject_p2.cfg", "MC_SingleObject_p3.cfg"]
+    so_runs = [common.run_tlc("SingleObject", c, workers=4, timeout=900) for c in so_cfgs]
+    for c, r_ in zip(so_cfgs, so_runs):
+        common.require_tlc_ok(r_, f"SingleObject model ({c})")
+    for m in (1, 2, 3):
+        mr = common.run_tlc("SingleObject", f"MC_SingleObject_mut{m}.cfg", workers=2, timeout=300)
+        if mr["ok"] or "is violated" not in mr["out"]:
+            raise common.ToolError(f"SingleObject mutant {m} not detected: invariants are vacuous")
+    so_scn = so_runs[0]["scn"]
+    if len(so_scn) < 100:
+        raise common.ToolError(f"SingleObject emitted only {len(so_scn)} behaviours")
+    # replay: the model's Parts for PartsId = 1 is one three-byte write_all after the header = a long of three bytes under schema "long"
+    Gl = scopes.flatten(scopes.prim("long"))["nodes"]
+    vl = {"t": "long", "v": pyavro.limbs(20000)}
+    CODE = {0: "zero", 100: "interrupted", 101: "error"}
+    rp_cmds = [{"op": "so_ser", "id": i, "schema": {"nodes": Gl}, "pres": codec.canon_pres(Gl, 1, vl, "named"),
+                "sink": [CODE.get(x, x) for x in sc["sched"]]} for i, sc in enumerate(so_scn)]
+    ref = common.run_harness([{"op": "so_ser", "id": 0, "schema": {"nodes": Gl}, "pres": codec.canon_pres(Gl, 1, vl, "named")}])[0]
+    n_replayed = 0
+    if ref.get("res") != "ok" or len(ref.get("bytes", [])) != 13:
+        rep.violation(f"single-object message of a three-byte long is not 13 bytes: {ref.get('res')} {len(ref.get('bytes', []))}",
+                      {"fam": "so_replay", "cmd": rp_cmds[0], "sched": []}, observed=ref)
+    else:
+        for c, sc, o in zip(rp_cmds, so_scn, common.run_harness(rp_cmds)):
+            n_replayed += 1
+            want = "ok" if sc["res"] == "run" else sc["res"]            # past the schedule the sink accepts everything
+            got = o.get("bytes") if o.get("res") == "ok" else o.get("got")
+            if o.get("res") != want:
+                rep.violation(f"to_single_object over sink schedule {sc['sched']}: model says {want}, code returned {o.get('res')} {o.get('msg', '')[:80]}",
+                              {"fam": "so_replay", "cmd": c, "sched": sc["sched"], "want": want}, observed=o)
+            elif got is None or got != ref["bytes"][:len(got)] or (want == "ok" and got != ref["bytes"]):
+                rep.violation(f"to_single_object over sink schedule {sc['sched']}: the sink did not receive a prefix of (all of) the message",
+                              {"fam": "so_replay", "cmd": c, "sched": sc["sched"], "want": want}, observed=o)
+            elif want == "err" and len(got) != sc["accepted"]:
+                rep.note(f"sink schedule {sc['sched']}: {len(got)} bytes accepted before the failure, the call-level model says {sc['accepted']}")
     rng = random.Random(seed + 18)
     trees = [t for _, t in scopes.schema_trees(tier, rng)]
     events, descr = [], []
@@ -170,6 +206,10 @@ def run(tier, seed):
                 "the slice and chunked readers; the message followed by garbage, cut at every length 0..10 and len-1, each of the 10 header bytes corrupted (2 masks); "
                 "the same message decoded under schemas with a different canonical form (renamed field, reversed enum symbols, added null field, renamed types). "
                 "TLC recomputes marker ++ LE(CRC-64-AVRO(Pcf(schema))) ++ Enc(value) and the decoding verdict for every event.",
+        "call_level_model": {"module": "SingleObject.tla", "configs": so_cfgs, "distinct_states": [r_["distinct"] for r_ in so_runs],
+                             "mutants_refuted": 3, "behaviours_replayed_into_to_single_object": n_replayed,
+                             "what": "write_all(marker), write_all(fingerprint), datum write calls over every sink schedule of MaxCalls calls (accept 1..8 / Interrupted / Ok(0) / hard error); "
+                                     "read_exact(10) over every source schedule, then marker and fingerprint comparison; invariants SinkIsPrefix, OkMeansWhole, FaultSurfaces, ReaderSound, ReaderShort"},
         "by_kind": kinds, "samples": [ser_cmds[0], {k: v for k, v in de_cmds[5].items()}], "exhaustive": False,
     }
     common.write_evidence(PROP, tier, seed, "model_checking", cov,
@@ -182,6 +222,17 @@ def replay(path):
     sc = rec["scenario"]
     c = sc["cmd"]
     o = common.run_harness([dict(c, id=0)])[0]
+    if sc.get("fam") == "so_replay":
+        ref = common.run_harness([{k: v for k, v in dict(c, id=0).items() if k != "sink"}])[0]
+        print(json.dumps(o)[:1200])
+        got = o.get("bytes") if o.get("res") == "ok" else o.get("got")
+        want = sc.get("want", "ok")
+        good = ref.get("res") == "ok" and len(ref["bytes"]) == 13 and o.get("res") == want and got is not None and got == ref["bytes"][:len(got)] \
+            and (want != "ok" or got == ref["bytes"])
+        if not good:
+            print(f"VIOLATION property={PROP} replay={path}")
+            return common.EXIT_VIOLATION
+        return common.EXIT_OK
     nodes = c["schema"]["nodes"]
     ev = so_ser_event(nodes, c, o) if c["op"] == "so_ser" else so_de_event(nodes, c["bytes"], o)
     print(json.dumps(o)[:1200])
